@@ -15,6 +15,7 @@ Real code: rich.ansi, rich.file_proxy, rich.live, rich.progress, rich.console, r
 """
 import copy
 import json
+import re
 import sys
 
 from dsim import sched, seams, term
@@ -141,11 +142,21 @@ class C19:
         nlines = rng.randint(1, 14 if thorough else 7)
         chans = {"o": [], "e": []}
         order = []
+        # some encoder-made streams also carry lines wider than the console (rich word-wraps them;
+        # expected rows then come from a pristine print of the same styled pieces); such streams
+        # are not flushed in mid-line
+        wide_ok = cfg["family"] == "enc" and rng.random() < 0.3
+        wide = {}
         for i in range(nlines):
             ch = "o" if rng.random() < 0.7 else "e"
             tok = "L%s%dz" % (ch, i)
             if rng.random() < 0.08:
                 line = []  # an empty line
+            elif wide_ok and rng.random() < 0.4:
+                line = gen_line(rng, tok, int(W * 2.5))
+                while term.text_width("".join(t for t, _ in line)) <= W:
+                    line.append([" " + rng.choice(WORDS) + " " + rng.choice(WORDS), gen_style(rng) if rng.random() < 0.5 else ""])
+                wide[tok] = line
             elif cfg["family"] == "enc":
                 line = gen_line(rng, tok, W)
             else:
@@ -189,7 +200,7 @@ class C19:
             r = rng.random()
             if r < 0.08:
                 events.append(["w", ch, ""])
-            elif r < 0.2:
+            elif r < 0.2 and not wide:
                 events.append(["flush", rng.choice("oe")])
             elif r < 0.3:
                 events.append(["sleep", rng.choice([0.01, 0.1, 0.4])])
@@ -197,7 +208,7 @@ class C19:
                 events.append(["refresh"])
         if rng.random() < 0.5:
             events.append(["flush", "o"])
-        return {"kind": "proxy", "cfg": cfg, "events": events}
+        return {"kind": "proxy", "cfg": cfg, "events": events, "wide": wide}
 
     def _encode(self, cfg, line):
         if not line:
@@ -342,7 +353,7 @@ class Proxy:
         self.frame_rows = None
         self.probes = {"writes_torn_in_escape": 0, "empty_writes": 0, "multi_newline_writes": 0, "flushes": 0,
                        "flush_on_empty": 0, "flush_partial": 0, "flush_skipped_esc": 0, "lines_completed": 0,
-                       "stderr_lines": 0, "writes_with_3plus_lines_and_prefix": 0, "lines_torn_3plus": 0}
+                       "stderr_lines": 0, "writes_with_3plus_lines_and_prefix": 0, "lines_torn_3plus": 0, "wide_lines": 0}
         self.stdout_sentinel, self.stderr_sentinel = sys.stdout, sys.stderr
         if cfg["display"] == "live":
             from rich.live import Live
@@ -380,8 +391,21 @@ class Proxy:
         for ln in lines:
             r0 = scr.row
             scr.feed(ln + "\n")
-            for r in range(r0, scr.row):
-                out.append(scr.cells(r))
+            tok = re.match(r"L[oe]\d+z", term.visible_text(ln))
+            pieces = self.case.get("wide", {}).get(tok.group(0)) if tok else None
+            if pieces is not None:
+                # wider than the console: rich word-wraps; layout trusted (pristine print of the
+                # very pieces the line was encoded from -- the decoder is not involved)
+                from rich.text import Text
+
+                self.probes["wide_lines"] += 1
+                tx = Text()
+                for t, st in pieces:
+                    tx.append(t, style=st or None)
+                out.extend(self.pristine.rows(lambda c: c.print(tx)))
+            else:
+                for r in range(r0, scr.row):
+                    out.append(scr.cells(r))
         return out
 
     def body(self):
